@@ -5,16 +5,16 @@ HERE = os.path.dirname(os.path.dirname(os.path.abspath(__file__)))
 props = [json.loads(l)['id'] for l in open(os.path.join(HERE, 'properties.jsonl'))]
 
 ENGINES = {
- "sched": dict(path="spec/Sched.tla spec/MCSched.tla spec/SchedTrace.tla lib/sched_engine.py harness/src/sched.rs harness/src/ctl.rs",
+ "sched": dict(path="spec/Sched.tla spec/MCSched.tla spec/SchedTrace.tla spec/SchedObs.tla lib/sched_engine.py harness/src/sched.rs harness/src/ctl.rs",
                props=["C02", "C03", "C04", "C05"],
                kind="TLC model checking of the coordinator (all digraphs / input lists / interleavings in bounds) + exhaustive gate-level schedule enumeration of the real coordinator through the verif hooks + TLC trace validation of the recorded hook traces"),
  "pure": dict(path="spec/Grammar.tla spec/MCGrammar.tla spec/GrammarTrace.tla spec/TagInject.tla spec/MCTagInject.tla spec/TagTrace.tla lib/pure_engine.py harness/src/pure.rs",
               props=["C14", "C15"],
               kind="TLC checks operational = declarative definitions on a bounded-exhaustive input space and emits the result tables, which are compared call by call with the real functions; observations of the real functions on larger random inputs are validated by TLC"),
- "pp": dict(path="spec/PpCore.tla spec/PpEnv.tla spec/MCPp.tla spec/PpObs.tla lib/pp_engine.py harness/src/cases.rs",
+ "pp": dict(path="spec/PpCore.tla spec/PpEnv.tla spec/MCPp.tla spec/PpObs.tla spec/PpTrace.tla spec/LineEnding.tla lib/pp_engine.py harness/src/cases.rs",
             props=["C01", "C12", "C13", "C16"],
             kind="the line machine of txtpp as a TLA+ step function over strings (built on Grammar.tla and TagInject.tla); TLC evaluates it on every source over a line catalogue, checks the declarative statements of C12/C13/C16 and prints the expected bytes, which are compared with real builds; observations of larger random sources are validated by TLC"),
- "fs": dict(path="spec/Fs.tla spec/MCFs.tla lib/fs_engine.py harness/src/cases.rs",
+ "fs": dict(path="spec/Fs.tla spec/MCFs.tla spec/IoCtx.tla lib/fs_engine.py harness/src/cases.rs",
             props=["C06", "C07", "C08", "C09", "C10"],
             kind="tree-level TLA+ model of the four modes over every abstract state of the generated paths (absent / built(versions, option) / garbage); TLC checks the property statements on every edge and prints the edges, each of which is materialised on disk and executed with the real code (per-transition tests), whole tree compared incl. inode/mtime and decoys"),
  "resolve": dict(path="spec/Resolve.tla spec/MCResolve.tla lib/resolve_engine.py", props=["C11"],
